@@ -9,7 +9,7 @@ for d in sorted(os.listdir(V + '/seeded')):
     keys = []
     for c in m['caught_by_quick']:
         keys += m['checks_run'][c]['violation_keys'][:1]
-    if m['note'].startswith(('MISSED', 'first missed')):
+    if m['note'].startswith(('MISSED', 'first missed')) or 'by luck' in m['note']:
         missed += 1
     rows.append('| `%s` | %s | %s | %s | %s |' % (d, m['summary'][:150].replace('|', '/').replace('\n', ' '), ','.join(m['caught_by_quick']),
                                                    ', '.join('`%s`' % k.split('/', 1)[1][:44] for k in keys[:2]), m['note'].replace('|', '/')))
